@@ -3693,6 +3693,9 @@ class mulgrid(object):
             elif (nn, ns) == (7, 3):
                 last2 = [col.index_minus(i, 2) for i in straight]
                 start = [s for s, l in zip(straight, last2) if l not in straight][0]
+                if not all([col.index_plus(start, d) in straight for d in [2, 4]]):
+                    # straight nodes not on three different sides of the column:
+                    return self.triangulate_column(column_name, chars, spaces)
                 return self.subdivide_column(column_name, start,
                                              [(0, 1, 2), (2, 3, 4),
                                               (0, 2, 4), (4, 5, 6, 0)],
